@@ -2,6 +2,7 @@ package c01
 
 import (
 	"testing"
+	"time"
 
 	"pgregory.net/rapid"
 
@@ -16,6 +17,6 @@ func TestFree(t *testing.T) {
 		ID: "C01", Name: "free", Rule: freerun.Rule,
 		Gen:     func(t *rapid.T) freerun.Case { return freerun.Gen(t, freerun.Profile{Inc: 4, Cycle: 1, Gauge: 1}) },
 		Run:     freerun.Run,
-		Retries: 30,
+		Retries: 30, HangAfter: 60 * time.Second,
 	})
 }
